@@ -16,14 +16,24 @@ use serde_json::Value;
 pub struct Case {
     pub events: Vec<EvSpec>,
     pub sink: (u8, u64),
+    /// Some((indent character index, indent size, new_line mask)): the three writers are ALSO run with
+    /// indentation and with `ElementWriter::new_line()` calls in front of the attribute groups; they
+    /// must not panic and must agree byte for byte
+    #[serde(default)]
+    pub indent: Option<(u8, u8, u8)>,
 }
+
+thread_local! {
+    static NL_MASK: std::cell::Cell<u8> = std::cell::Cell::new(0);
+}
+const INDENT_SIZES: &[usize] = &[0, 1, 2, 4, 9, 33, 65, 130];
 
 pub fn info() -> PropInfo {
     PropInfo {
         id: "C09",
         run,
         replay,
-        rule: "cases = histories of builder calls: BytesStart::new + push_attribute/extend_attributes/with_attributes/set_name/clear_attributes written as Start or Empty, BytesEnd::new, BytesText::new, BytesCData::escaped (all pieces), BytesDecl::new, BytesPI::new, comments, DOCTYPE, Writer::create_element(..).with_attribute(s)..write_{text,cdata,pi}_content/write_empty/write_inner_content; payload strings from a markup-heavy generator. Reading the written bytes must give the constructed sequence after coalescing adjacent text events/CDATA pieces and dropping empty text; keys byte-equal, attribute values and text unescape to the original strings, CDATA concatenates to the original, declaration fields read back; the async writer (through a sink that accepts partial writes and returns Pending) produces the same bytes. Non-trivial = at least one payload contains a special character and the history contains an in-place edit or an element-builder call. The synchronous writer is also run through a sink that accepts partial (plain and vectored) writes and answers some calls with ErrorKind::Interrupted: same bytes as into a Vec. Payloads, names and builder-call lists occasionally long (16..300 characters, 20..45 calls).",
+        rule: "cases = histories of builder calls: BytesStart::new + push_attribute/extend_attributes/with_attributes/set_name/clear_attributes written as Start or Empty, BytesEnd::new, BytesText::new, BytesCData::escaped (all pieces), BytesDecl::new, BytesPI::new, comments, DOCTYPE, Writer::create_element(..).with_attribute(s)..write_{text,cdata,pi}_content/write_empty/write_inner_content; payload strings from a markup-heavy generator. Reading the written bytes must give the constructed sequence after coalescing adjacent text events/CDATA pieces and dropping empty text; keys byte-equal, attribute values and text unescape to the original strings, CDATA concatenates to the original, declaration fields read back; the async writer (through a sink that accepts partial writes and returns Pending) produces the same bytes. Non-trivial = at least one payload contains a special character and the history contains an in-place edit or an element-builder call. The synchronous writer is also run through a sink that accepts partial (plain and vectored) writes and answers some calls with ErrorKind::Interrupted: same bytes as into a Vec. Payloads, names and builder-call lists occasionally long (16..300 characters, 20..45 calls). In 40% of the cases the three writers are ALSO run with indentation (space / tab x sizes 0,1,2,4,9,33,65,130) and with ElementWriter::new_line() in front of / between / after the attribute groups: no panic, and sync, partial-sink sync and async writers agree byte for byte (what indentation may insert is C19's subject).",
         assumptions: &["names are XML-name-like (no blanks, no '>'), comment/PI/DOCTYPE content is free of its own terminator (documented preconditions)", "declarations name UTF-8 (or no encoding): the written bytes are UTF-8"],
         level: "exploration",
         variants: &["full", "min"],
@@ -34,14 +44,25 @@ fn write_sync<W: std::io::Write>(w: &mut Writer<W>, specs: &[EvSpec]) -> std::io
     for s in specs {
         match s {
             EvSpec::Element(name, attrs, content) => {
+                // (the async side writes an element with inner content as plain Start / End events: no new_line there)
+                let nl = if matches!(content, Content::Inner(_)) { 0 } else { NL_MASK.with(|m| m.get()) };
                 let mut ew = w.create_element(name.as_str());
+                if nl & 1 != 0 {
+                    ew = ew.new_line();
+                }
                 let mut it = attrs.iter();
                 if attrs.len() % 2 == 1 {
                     if let Some((k, v)) = it.next() {
                         ew = ew.with_attribute((k.as_str(), v.as_str()));
                     }
                 }
+                if nl & 2 != 0 {
+                    ew = ew.new_line();
+                }
                 ew = ew.with_attributes(it.map(|(k, v)| (k.as_str(), v.as_str())));
+                if nl & 4 != 0 {
+                    ew = ew.new_line();
+                }
                 match content {
                     Content::Text(t) => {
                         ew.write_text_content(BytesText::new(t))?;
@@ -76,15 +97,27 @@ fn write_async(w: &mut Writer<PartialSink>, specs: &[EvSpec]) -> Result<(), Stri
     for s in specs {
         match s {
             EvSpec::Element(name, attrs, content) => {
+                // (the async side writes an element with inner content as plain Start / End events: no new_line there)
+                let nl = if matches!(content, Content::Inner(_)) { 0 } else { NL_MASK.with(|m| m.get()) };
                 let mk = |w| {
                     let mut ew = Writer::create_element(w, name.as_str());
+                    if nl & 1 != 0 {
+                        ew = ew.new_line();
+                    }
                     let mut it = attrs.iter();
                     if attrs.len() % 2 == 1 {
                         if let Some((k, v)) = it.next() {
                             ew = ew.with_attribute((k.as_str(), v.as_str()));
                         }
                     }
-                    ew.with_attributes(it.map(|(k, v)| (k.as_str(), v.as_str())))
+                    if nl & 2 != 0 {
+                        ew = ew.new_line();
+                    }
+                    ew = ew.with_attributes(it.map(|(k, v)| (k.as_str(), v.as_str())));
+                    if nl & 4 != 0 {
+                        ew = ew.new_line();
+                    }
+                    ew
                 };
                 match content {
                     Content::Text(t) => {
@@ -233,6 +266,41 @@ pub fn check(c: &Case) -> Verdict {
     if abytes != bytes {
         return Verdict::fail(format!("async writer produced {:?}, sync writer {:?}", B::show(&abytes), B::show(&bytes)));
     }
+    let mut indented = false;
+    if let Some((ch, size, nl)) = c.indent {
+        let ch = [b' ', b'\t'][ch as usize % 2];
+        let size = INDENT_SIZES[size as usize % INDENT_SIZES.len()];
+        let events = &c.events;
+        let sink = c.sink;
+        let res = std::panic::catch_unwind(move || -> Result<(), String> {
+            NL_MASK.with(|m| m.set(nl));
+            let mut w = Writer::new_with_indent(Vec::new(), ch, size);
+            write_sync(&mut w, events).map_err(|e| format!("indenting writer failed: {}", e))?;
+            let bytes = w.into_inner();
+            let mut pw = Writer::new_with_indent(crate::sources::PartialSyncSink::new(sink.0 as usize, sink.1), ch, size);
+            write_sync(&mut pw, events).map_err(|e| format!("indenting sync writer failed on a sink with partial writes: {}", e))?;
+            let pbytes = pw.into_inner().out;
+            if pbytes != bytes {
+                return Err(format!("indenting sync writer through a partial sink produced {:?}, into a Vec {:?}", B::show(&pbytes), B::show(&bytes)));
+            }
+            let mut aw = Writer::new_with_indent(PartialSink::new(sink.0 as usize, sink.1), ch, size);
+            write_async(&mut aw, events).map_err(|m| format!("indenting async writer failed: {}", m))?;
+            let abytes = aw.into_inner().out;
+            if abytes != bytes {
+                return Err(format!("with indentation ({:?} x {}, new_line mask {}) the async writer produced {:?}, the sync writer {:?}", ch as char, size, nl, B::show(&abytes), B::show(&bytes)));
+            }
+            Ok(())
+        });
+        NL_MASK.with(|m| m.set(0));
+        match res {
+            Ok(Ok(())) => indented = true,
+            Ok(Err(m)) => return Verdict::fail(m),
+            Err(p) => {
+                let msg = p.downcast_ref::<String>().cloned().or_else(|| p.downcast_ref::<&str>().map(|s| s.to_string())).unwrap_or_default();
+                return Verdict::fail(format!("panic in an indenting writer ({:?} x {}, new_line mask {}): {}", ch as char, size, nl, msg));
+            }
+        }
+    }
     let (mut special, mut edits) = (false, false);
     count_special(&c.events, &mut special, &mut edits);
     let mut v = Verdict::pass(special && edits);
@@ -241,6 +309,9 @@ pub fn check(c: &Case) -> Verdict {
     }
     if c.events.iter().any(|e| matches!(e, EvSpec::Element(..))) {
         v.classes.push("element-builder");
+    }
+    if indented {
+        v.classes.push("also-with-indentation-sync-vs-async");
     }
     if c.sink.0 & 0x80 != 0 {
         v.classes.push("async-sink-with-partial-vectored-writes");
@@ -253,7 +324,7 @@ pub fn check(c: &Case) -> Verdict {
 
 fn run(ctx: &Ctx) {
     ctx.run_regress::<Case, _>(check);
-    let strat = || Box::new((prop::collection::vec(spec_strategy(2), 0..12), ((1u8..25, any::<bool>()).prop_map(|(m, v)| m | if v { 0x80 } else { 0 }), any::<u64>())).prop_map(|(events, sink)| Case { events, sink }));
+    let strat = || Box::new((prop::collection::vec(spec_strategy(2), 0..12), ((1u8..25, any::<bool>()).prop_map(|(m, v)| m | if v { 0x80 } else { 0 }), any::<u64>()), prop::option::weighted(0.4, (0u8..2, 0u8..8, 0u8..8))).prop_map(|(events, sink, indent)| Case { events, sink, indent }));
     ctx.run_proptest_with("builder-histories", ctx.tier.pick(1_000_000, 10_000_000), strat, check);
 }
 
